@@ -22,7 +22,11 @@ LEAF = ["", "a", "# a", "*a* `b`", "![x ![y](z)](w)", "[l][r]", "[r]: /u", "![](
         "a\\*b &amp;", "<b>", "[](u)", "**", "7) a"]
 CFGS = [dict(C.cfg("js-default", {"store_labels": True}), plugin="attrs"),
         C.cfg("js-default", {"store_labels": True, "inline_definitions": True}),
-        C.cfg("commonmark", {"typographer": True, "store_labels": True}, enable=["table", "strikethrough", "replacements", "smartquotes"])]
+        C.cfg("commonmark", {"typographer": True, "store_labels": True}, enable=["table", "strikethrough", "replacements", "smartquotes"]),
+        # post-processing rules of the inline chain switched off: levels and text merging are then not normalised,
+        # but serialisation, tree conversion and rendering must still be consistent with the stream as it is
+        C.cfg("js-default", post=[["ruler2_disable", "fragments_join"]]),
+        C.cfg("commonmark", enable=["strikethrough"], post=[["ruler2_disable", "balance_pairs"]])]
 
 
 def _attr_plugin(md):
@@ -68,6 +72,17 @@ def flat_openers(toks, out):
             flat_openers(t.children, out)
 
 
+def _balanced(tokens):
+    depth = 0
+    for t in tokens:
+        depth += t.nesting
+        if depth < 0:
+            return False
+        if t.children and not _balanced(t.children):
+            return False
+    return depth == 0
+
+
 def laws(md, toks, acc):
     from markdown_it.token import Token
     from markdown_it.tree import SyntaxTreeNode
@@ -95,8 +110,12 @@ def laws(md, toks, acc):
     # tree
     try:
         tree = SyntaxTreeNode(toks)
-    except Exception:
-        return None  # C02 owns tree constructibility
+    except RecursionError:
+        return None  # known finding of C02 (very deep delimiter nesting)
+    except Exception as e:
+        if _balanced(toks):
+            return f"SyntaxTreeNode raises {type(e).__name__} on a stream whose open/close tokens balance"
+        return None  # an unbalanced stream is C02's business
     back = tree.to_tokens()
     if len(back) != len(toks) or any(a is not b for a, b in zip(back, toks)):
         return "to_tokens() is not the identical token sequence"
